@@ -131,6 +131,29 @@ def run(S):
     S.notes.append('bounded done at %.1fs' % (time.time() - T0))
 
 
+def objectivity_at_arbitrary_viscous_state(S, models=('HyperViscoelastic',)):
+    """energy density unchanged by a superposed rotation at an ARBITRARY (symbolic) viscous state -- used by C08, whose other clauses
+    look at the virgin state only"""
+    from optimism.material import HyperViscoelastic as HV, MultiBranchHyperViscoelastic as MB
+    so3 = ideal.SO3('q')
+    Q = onp.array(so3.Qt, dtype=object)
+    I3 = onp.array([[tm.ONE if i == j else tm.ZERO for j in range(3)] for i in range(3)], dtype=object)
+    for mod, multi, name in ((HV, False, 'HyperViscoelastic'), (MB, True, 'MultiBranchHyperViscoelastic')):
+        if name not in models:
+            continue
+        flat, branches = _props(mod, multi)
+        nb = len(branches)
+        dt = tm.var('dt')
+        H = J.sym_array('h', (3, 3))
+        st = J.sym_array('fv', (9 * nb,))
+        parr = onp.array(flat, dtype=object)
+        with J.tensor_stubs():
+            W = J.scalar(J.symbolic_call(lambda h, s, d, p: mod._energy_density(h, s, d, p), H, st, dt, parr))
+            H2 = Q.dot(H + I3) - I3
+            W2 = J.scalar(J.symbolic_call(lambda h, s, d, p: mod._energy_density(h, s, d, p), H2, st, dt, parr))
+        _mod(S, so3, name + '._energy_density/unchanged_by_superposed_rotation_at_an_arbitrary_viscous_state', [(W2, W)], so3.new_conv())
+
+
 def _mod(S, so3, cid, pairs, conv=None):
     st, detail, secs = ideal.prove_eq_mod(so3, pairs, conv=conv, timeout=240)
     S.decided(cid, 'proved' if st == 'proved' else 'unknown', 'ideal', detail=detail, seconds=secs,
